@@ -12,7 +12,7 @@ echo "== seed $P/$K $(date)"
 if [ ! -f /tmp/seed/${P}_out/baseline_nextest_failed.txt ]; then
   echo "-- baseline full suite on pristine worktree"
   cargo nextest run --workspace --no-fail-fast --offline --test-threads 8 > /tmp/seed/${P}_out/baseline_nextest.log 2>&1
-  grep -E "^\s+(FAIL|TIMEOUT|SIGABRT|SIGSEGV)" /tmp/seed/${P}_out/baseline_nextest.log | sed 's/.*\] *//' | sort -u > /tmp/seed/${P}_out/baseline_nextest_failed.txt
+  grep -E "^\s+(FAIL|TIMEOUT|SIGABRT|SIGSEGV)" /tmp/seed/${P}_out/baseline_nextest.log | sed -E 's/.*\([0-9 ]+\/[0-9]+\) *//' | sort -u > /tmp/seed/${P}_out/baseline_nextest_failed.txt
   tail -3 /tmp/seed/${P}_out/baseline_nextest.log
 fi
 cp $OUT/demo.rs oxidize-pdf-core/tests/seed_demo.rs
@@ -26,7 +26,7 @@ rm -f oxidize-pdf-core/tests/seed_demo.rs
 echo "-- full suite with patch"
 cargo nextest run --workspace --no-fail-fast --offline --test-threads 8 > $OUT/confirm_nextest.log 2>&1
 tail -3 $OUT/confirm_nextest.log
-grep -E "^\s+(FAIL|TIMEOUT|SIGABRT|SIGSEGV)" $OUT/confirm_nextest.log | sed 's/.*\] *//' | sort -u > $OUT/confirm_failed.txt
+grep -E "^\s+(FAIL|TIMEOUT|SIGABRT|SIGSEGV)" $OUT/confirm_nextest.log | sed -E 's/.*\([0-9 ]+\/[0-9]+\) *//' | sort -u > $OUT/confirm_failed.txt
 echo "-- failures not in baseline:"
 comm -23 $OUT/confirm_failed.txt /tmp/seed/${P}_out/baseline_nextest_failed.txt
 echo "== done"
